@@ -569,8 +569,8 @@ class PeerCase:
                         break
                 rec["eof"] = "reset" if ch.reset else "eof"
                 ch.close()
-            d["done"] = True
-            # the client has closed the data connection: write what was held back
+            # the client has closed the data connection: write what was held back (before the control thread, which
+            # waits for "done", answers the next command)
             with st["lock"]:
                 pend, st["pending"] = st["pending"], []
             if pend and not d["aborted"]:
@@ -578,6 +578,7 @@ class PeerCase:
                 self._write_items(st, pend)
             elif pend and d["aborted"]:
                 self._write_items(st, pend)
+            d["done"] = True
             if d.get("listener") is not None:
                 try:
                     d["listener"].close()
